@@ -276,6 +276,49 @@ class Units:
                         changed = True
             if not changed:
                 break
+        # offsets built from absolute positions, handed to an API that reads them relative to a selection
+        absoff = {}
+        for _ in range(6):
+            ch = False
+            for blk in b.blocks:
+                t = blk["t"]
+                if t["t"] == "call" and "dest" in t and not t["dest"]["p"]:
+                    decl, res, info = callee_of(t)
+                    if decl and re.search(r"selector::Offset::(simple|new)$", decl) and t.get("args"):
+                        which = [i for i, a_ in enumerate(t["args"]) if self.abs_op(a_) or (op_place(a_) is not None and op_place(a_)["l"] in absoff)]
+                        if which and t["dest"]["l"] not in absoff:
+                            absoff[t["dest"]["l"]] = b.key_of_operand(t["args"][which[0]])[:60]
+                            ch = True
+                for s_ in blk["s"]:
+                    rv = s_.get("rv")
+                    if not rv or s_["p"]["p"]:
+                        continue
+                    src_l = None
+                    if rv["r"] in ("use", "cast"):
+                        q_ = op_place(rv["o"])
+                        src_l = q_["l"] if q_ else None
+                    elif rv["r"] == "ref":
+                        src_l = rv["p"]["l"]
+                    elif rv["r"] == "agg" and rv.get("adt", "").endswith("Cursor") and rv.get("ops") and self.abs_op(rv["ops"][0]) and rv.get("variant") == "BeginAligned":
+                        if s_["p"]["l"] not in absoff:
+                            absoff[s_["p"]["l"]] = b.key_of_operand(rv["ops"][0])[:60]
+                            ch = True
+                    if src_l in absoff and s_["p"]["l"] not in absoff:
+                        absoff[s_["p"]["l"]] = absoff[src_l]
+                        ch = True
+            if not ch:
+                break
+        for blk in b.blocks:
+            if blk.get("cleanup"):
+                continue
+            t = blk["t"]
+            if t["t"] == "call" and t.get("args") and len(t["args"]) >= 2:
+                decl, res, info = callee_of(t)
+                at0 = (t.get("at") or [""])[0]
+                if decl and re.search(r"::(textselection|text_by_offset)$", decl) and not re.search(r"TextResource", at0):
+                    q_ = op_place(t["args"][1])
+                    if q_ is not None and q_["l"] in absoff:
+                        self._v("abs-offset-to-relative-api", decl.split("::")[-1], t.get("line"), "an offset built from the absolute position %s is passed to %s on a receiver of type %s, which reads offsets relative to its own begin" % (absoff[q_["l"]], decl.split("::")[-1], at0[:50]))
         for blk in b.blocks:
             if blk.get("cleanup"):
                 continue
